@@ -87,7 +87,8 @@ pub trait StreamCipherSeekCore: StreamCipherCore {
     type Counter: StreamCipherCounter;
     spec fn counter_val(c: Self::Counter) -> int;
     proof fn lemma_counter_val(c: Self::Counter)
-        ensures Self::counter_val(c) == <Self::Counter as StreamCipherCounter>::cval(c);
+        ensures Self::counter_val(c) == <Self::Counter as StreamCipherCounter>::cval(c),
+                0 <= Self::counter_val(c) < Self::pos_modulus();
     // the current block position and the counter modulus; the generator state at block position 0 is
     // StreamCipherCore::korigin()
     spec fn block_pos(&self) -> int;
